@@ -4,6 +4,7 @@ import structcases
 import obs
 
 ID = "C05"
+VALIDATE_MIX = True      # every third case also goes through naga's validator: it only gates, the assertions are the same
 ENV_RERUN = 40          # cases repeated from a cargo build-script environment (lib/runner.py with_build_env)
 REQUIRES = ["Agree", "StructSpec", "Truth"]
 THEOREM_REQUIRES = ["C05"]
@@ -78,6 +79,9 @@ def verdict_expr_noout(c, r, ir):
 
 def verdict_expr(c, r, ir, real):
     t = structcases.truth_term(c["truth"], c["opts"])
+    if c["opts"].get("validate") and r.get("valid") is False:
+        # rejected by the validator that was asked for: not an accepted shader (the model must agree on the error)
+        return '[wf %s; agree_res agree_C05 (gen %s ""%%string None %s) %s; true]' % (ir, ir, coq_options(c["opts"]), real)
     return _verdict(c, r, ir, real, t).replace("OBS", _obs(c, r))
 
 
